@@ -98,7 +98,14 @@ func (ex *Exec) unop(fr *Frame, x *ssa.UnOp, st *State, reach Term) Val {
 			tup := x.Type().(*types.Tuple)
 			return TupleV{E: []Val{ex.freshVal("recv", tup.At(0).Type(), st), Scalar{ex.vc.fresh("recvok", SBool), types.Typ[types.Bool]}}}
 		}
-		return ex.freshVal("recv", x.Type(), st)
+		rv := ex.freshVal("recv", x.Type(), st)
+		if ci := ex.chanInvOf(x.X); ci != nil {
+			env := &SpecEnv{vars: map[string]Val{ci.Var: rv}, st: st, lst: st, pkg: fr.fn.Pkg.Pkg, topOld: fr.entry.top}
+			env.old = env
+			ex.vc.assume(Implies(reach, ex.evalBool(ci.E, env)))
+			ex.vc.Assumptions["channel invariant on "+ci.Field+" (checked at every send in the package): "+ci.Text] = true
+		}
+		return rv
 	case token.XOR:
 		t := ex.scalar(v)
 		_, hi, bounded, uns := intRange(x.Type())
